@@ -53,6 +53,11 @@ def rdw (init : Nat → Nat) (stores : List (Nat × Nat)) (i : Nat) : Nat :=
 /-- byte `k` of the little-endian object representation of `v` replaced by `b` (a store through `(uint8_t *)&v`) -/
 def setByte (v k b : Nat) : Nat := v - (v / 2 ^ (8 * k) % 256) * 2 ^ (8 * k) + b * 2 ^ (8 * k)
 
+/-- `__builtin_bswap64` -/
+def bswap64 (v : Nat) : Nat :=
+  (v % 256) * 2 ^ 56 + (v / 2 ^ 8 % 256) * 2 ^ 48 + (v / 2 ^ 16 % 256) * 2 ^ 40 + (v / 2 ^ 24 % 256) * 2 ^ 32 +
+  (v / 2 ^ 32 % 256) * 2 ^ 24 + (v / 2 ^ 40 % 256) * 2 ^ 16 + (v / 2 ^ 48 % 256) * 2 ^ 8 + (v / 2 ^ 56 % 256)
+
 /-- stores of a callee that was handed `buf + off` -/
 def shiftW (off : Nat) (stores : List (Nat × Nat)) : List (Nat × Nat) := stores.map fun p => (off + p.1, p.2)
 
@@ -508,6 +513,9 @@ class Fn2(c2lean.Fn):
             return V(f"(({sa} + {sb} < -(2 ^ 63 : Int)) ∨ ({sa} + {sb} > (2 ^ 63 : Int) - 1))", Ty("i", 32), prop=True)
         if cn in CONSTANT_CALLS:
             return V(str(CONSTANT_CALLS[cn]), Ty("u", 1))
+        if cn == "__builtin_bswap64":
+            a = self.conv(self.expr(n["inner"][1], env), Ty("u", 64))
+            return V(f"(bswap64 {paren(a.s)})", Ty("u", 64))
         args = [self.expr(a, env) for a in n["inner"][1:]]
         callee = self.tr.done.get(cn)
         if callee is None:
@@ -842,6 +850,12 @@ class Fn2(c2lean.Fn):
             if cn in ("memcpy", "__builtin_memcpy"):
                 args = s["inner"][1:]
                 dst, src = self.expr(args[0], env), self.expr(args[1], env)
+                if (dst.ptr is not None or dst.addr_of is not None) and (src.ptr is not None or src.addr_of is not None) \
+                        and not (dst.ptr is not None and dst.ptr[0] in self.out_params and src.addr_of is not None):
+                    if dst.addr_of is not None and dst.ptr is None:
+                        dst = V("", dst.ty, ptr=("@bytes:" + dst.addr_of, 0))
+                    if src.addr_of is not None and src.ptr is None:
+                        src = V("", src.ty, ptr=("@bytes:" + src.addr_of, 0))
                 if dst.ptr is not None and src.ptr is not None:
                     # byte-wise copy of a constant number of bytes between byte buffers / byte views
                     nb = self.expr(args[2], env)
@@ -923,7 +937,14 @@ class Fn2(c2lean.Fn):
         """a switch whose `break`s all sit at the top level of its body becomes a chain of `if (e == k)` (the controlling
         expression must be free of side effects: it is evaluated once per arm)"""
         inner = s["inner"]
-        items = self.flatten_switch(inner[-1])
+        items = []
+        for it in self.flatten_switch(inner[-1]):
+            # `case X: { …; break; }` — a brace block that ends the arm: its statements are the arm's statements
+            if it[0] == "stmt" and it[1].get("kind") == "CompoundStmt" and \
+                    any(c.get("kind") == "BreakStmt" for c in it[1].get("inner", []) or []):
+                items += [("stmt", c) for c in it[1]["inner"]]
+            else:
+                items.append(it)
 
         def nested_break(n, top=True):
             if not isinstance(n, dict):
@@ -1721,6 +1742,23 @@ TARGETS2 = {
         ("varintChained.c", "putVarint64", "chainedPut64"),
         ("varintChained.c", "varintChainedPutVarint", "chainedPutVarint"),
         ("varintChained.c", "varintChainedVarintLen", "chainedVarintLen"),
+    ],
+    "CTaggedQ": [
+        ("import", "CTagged", "varintTagged.c:varintTaggedLen:taggedLen:legacy,"
+                              "varintTagged.c:varintTaggedPut64FixedWidth:taggedPut64FixedWidth:legacy,"
+                              "varintTagged.c:varintTaggedGet:taggedGet:legacy"),
+        ("varintTagged.c", "varintTaggedGet64ReturnValue", "taggedGet64ReturnValue"),
+        ("harness/vw_tagged.c", "vw_taggedLenQuick", "taggedLenQuick"),
+        ("harness/vw_tagged.c", "vw_taggedGetLenQuick", "taggedGetLenQuick"),
+        ("harness/vw_tagged.c", "vw_taggedGet64Quick", "taggedGet64Quick"),
+        ("harness/vw_tagged.c", "vw_taggedPutFixedQuick", "taggedPutFixedQuick"),
+    ],
+    "CExtBE": [
+        ("varintExternalBigEndian.c", "_varintExternalBigEndianCopyUsedBytesLittleEndian", "extbeCopyUsed"),
+        ("varintExternalBigEndian.c", "_varintExternalBigEndianLoadFromEncodingLittleEndian", "extbeLoad"),
+        ("varintExternalBigEndian.c", "varintExternalBigEndianPut", "extbePut"),
+        ("varintExternalBigEndian.c", "varintExternalBigEndianPutFixedWidth", "extbePutFixedWidth"),
+        ("varintExternalBigEndian.c", "varintExternalBigEndianGet", "extbeGet"),
     ],
     "CAdaptive": [
         ("varintAdaptive.c", "varintAdaptiveCheckSorted", "adaptiveCheckSorted"),
